@@ -277,4 +277,86 @@ Section Heap.
     - intros q a H. apply heap_push_spec. exact H.
     - intros q en q' H E. apply heap_pop_spec; assumption.
   Qed.
+
+  (** *** any weighted sum over the queue is kept by the heap operations (nothing is lost or duplicated) *)
+  Section Sum.
+    Variable w : qe -> Z.
+    Fixpoint sumw (l : list qe) : Z := match l with [] => 0%Z | a :: t => (w a + sumw t)%Z end.
+
+    Lemma sumw_app l1 l2 : sumw (l1 ++ l2) = (sumw l1 + sumw l2)%Z.
+    Proof. induction l1 as [|a l IH]; cbn; [reflexivity|]. rewrite IH. lia. Qed.
+
+    Lemma sumw_set_nth l i v : i < length l -> sumw (set_nth l i v) = (sumw l - w (get l i) + w v)%Z.
+    Proof.
+      unfold qnth. revert i. induction l as [|a l IH]; intros i H; cbn in H; [lia|].
+      destruct i as [|i]; cbn; [lia|]. rewrite IH by lia. lia.
+    Qed.
+
+    Lemma sumw_swap l i j : i < length l -> j < length l -> sumw (swap l i j) = sumw l.
+    Proof.
+      intros Hi Hj. unfold qswap. rewrite sumw_set_nth by (rewrite set_nth_length; exact Hj).
+      rewrite sumw_set_nth by exact Hi.
+      assert (E : get (set_nth l i (get l j)) j = if j =? i then get l j else get l j).
+      { unfold qnth at 1. rewrite nth_set_nth by exact Hi. destruct (j =? i); reflexivity. }
+      rewrite E. destruct (j =? i); lia.
+    Qed.
+
+    Lemma sumw_up fuel : forall l j, j < length l -> sumw (heap_up D ops fuel l j) = sumw l.
+    Proof.
+      induction fuel as [|f IH]; intros l j Hj; [reflexivity|]. cbn [heap_up]. fold (par j).
+      destruct ((par j =? j) || negb (qlt (get l j) (get l (par j)))); [reflexivity|].
+      assert (Hi : par j < length l) by (unfold par; lia).
+      rewrite IH by (rewrite swap_length; exact Hi). apply sumw_swap; assumption.
+    Qed.
+
+    Lemma sumw_down fuel : forall l i n, n <= length l -> sumw (heap_down D ops fuel l i n) = sumw l.
+    Proof.
+      induction fuel as [|f IH]; intros l i n Hn; [reflexivity|]. cbn [heap_down].
+      destruct (Nat.leb n (2 * i + 1)) eqn:C0; [reflexivity|]. apply Nat.leb_gt in C0.
+      set (j := if Nat.ltb (S (2 * i + 1)) n && qlt (get l (S (2 * i + 1))) (get l (2 * i + 1)) then S (2 * i + 1) else 2 * i + 1).
+      assert (Jn : j < n).
+      { subst j. destruct (Nat.ltb (S (2 * i + 1)) n && qlt (get l (S (2 * i + 1))) (get l (2 * i + 1))) eqn:C1; [|lia].
+        apply andb_prop in C1. destruct C1 as [A _]. apply Nat.ltb_lt in A. exact A. }
+      clearbody j.
+      destruct (negb (qlt (get l j) (get l i))); [reflexivity|].
+      rewrite IH by (rewrite swap_length; exact Hn). apply sumw_swap; lia.
+    Qed.
+
+    Lemma heap_down_length fuel : forall l i n, length (heap_down D ops fuel l i n) = length l.
+    Proof.
+      induction fuel as [|f IH]; intros l i n; [reflexivity|]. cbn [heap_down].
+      destruct (Nat.leb n (2 * i + 1)); [reflexivity|].
+      match goal with |- context [negb (qlt (get l ?j) (get l i))] => destruct (negb (qlt (get l j) (get l i))) end; [reflexivity|].
+      rewrite IH. apply swap_length.
+    Qed.
+
+    Lemma sumw_push q a : sumw (heap_push D ops q a) = (w a + sumw q)%Z.
+    Proof.
+      unfold heap_push. assert (Len : length (q ++ [a]) = S (length q)) by (rewrite app_length; cbn; lia).
+      rewrite sumw_up by lia. rewrite sumw_app. cbn. lia.
+    Qed.
+
+    Lemma sumw_firstn_last l n : length l = S n -> sumw l = (sumw (firstn n l) + w (get l n))%Z.
+    Proof.
+      intros H. rewrite <- (firstn_skipn n l) at 1. rewrite sumw_app. f_equal.
+      unfold qnth. rewrite <- (firstn_skipn n l) at 2. rewrite app_nth2 by (rewrite firstn_length; lia).
+      rewrite firstn_length. replace (n - Nat.min n (length l)) with 0 by lia.
+      destruct (skipn n l) as [|b t] eqn:E.
+      - exfalso. assert (length (skipn n l) = 1) by (rewrite skipn_length; lia). rewrite E in H0. discriminate.
+      - assert (length (skipn n l) = 1) by (rewrite skipn_length; lia). rewrite E in H0. destruct t; [|discriminate]. cbn. lia.
+    Qed.
+
+    Lemma sumw_pop q en q' : heap_pop D ops q = Some (en, q') -> sumw q = (w en + sumw q')%Z.
+    Proof.
+      intros E. unfold heap_pop in E. destruct q as [|a0 t0] eqn:Eq; [discriminate|]. rewrite <- Eq in *.
+      assert (Len : 0 < length q) by (rewrite Eq; cbn; lia). clear Eq a0 t0.
+      injection E as <- <-.
+      set (n := length q - 1). set (l1 := swap q 0 n). set (l2 := heap_down D ops (length q) l1 0 n).
+      assert (L1 : length l1 = length q) by apply swap_length.
+      assert (S2 : sumw l2 = sumw q).
+      { subst l2. rewrite sumw_down by lia. subst l1. apply sumw_swap; lia. }
+      assert (L2 : length l2 = S n) by (subst l2; rewrite heap_down_length, L1; lia).
+      rewrite <- S2. rewrite (sumw_firstn_last l2 n L2). lia.
+    Qed.
+  End Sum.
 End Heap.
